@@ -5,6 +5,7 @@ import re
 from ..model import UNKNOWN, ClassRef, FuncRef, OpInt, AnalysisError, norm, walk_no_nested
 from ..interp import Interp, Depth, SEQS
 from ..table import Tracer
+from ..resolve import root_name as _root_name
 from ..rules import canon_guard, check_rule, raising_guards, canon_text, equiv_folded
 from .. import common, spec, flow
 from . import c20
@@ -27,6 +28,7 @@ def run(ctx):
     rule_dispatch(ctx, repo, it)
     rule_arity(ctx, repo, it)
     rule_bool_pushes(ctx, repo, it)
+    rule_cast_to_bool(ctx, repo)
     rule_limits(ctx, repo, it)
     rule_stack_limit_path(ctx, repo, it)
     rule_operators(ctx, repo, it)
@@ -42,6 +44,100 @@ def run(ctx):
                         'FindAndDelete', 'ECDSA signature checks', 'loop-carried index bounds of the multisig matching loop',
                         'full agreement of final stacks: the rules are necessary conditions']
     ctx.assume('hashlib and libcrypto are correct')
+
+
+# ------------------------------------------------------------------------------------------------ B2 truth of a stack element
+POSITION_BLIND = ('strip', 'replace', 'count', 'translate')
+
+
+def rule_cast_to_bool(ctx, repo):
+    """A stack element is false iff every byte is zero, except that the last byte may be 0x80 (negative zero).  The scan
+    form is decided as a decision table: one loop iteration over (byte value class) x (is it the last position), with
+    the guards of the code evaluated on the cell representatives.  An implementation that looks at the bytes only through
+    position-blind operations (strip, count, set membership ...) cannot tell 0x80 in the last position from 0x80
+    anywhere else, whatever else it does."""
+    r = ctx.rule('C06.B2', 'truth of a stack element: the first non-zero byte decides, and it means false only as 0x80 in the last position', engine='TABLE', floor=7)
+    fi = repo.get_function('bitcoin.core.scripteval._CastToBool')
+    p = fi.params[0]
+    loops = [n for n in fi.node.body if isinstance(n, ast.For)]
+    rest = [n for n in fi.node.body if not isinstance(n, ast.For) and not (isinstance(n, ast.Expr) and isinstance(n.value, ast.Constant))]
+    pre = []
+    while rest and loops and isinstance(rest[0], ast.Assign) and len(rest[0].targets) == 1 and isinstance(rest[0].targets[0], ast.Name) \
+            and fi.node.body.index(rest[0]) < fi.node.body.index(loops[0]):
+        pre.append(rest.pop(0))
+    if len(loops) != 1:
+        uses = [n for n in ast.walk(fi.node) if isinstance(n, ast.Name) and n.id == p]
+        aware = [n for n in ast.walk(fi.node) if (isinstance(n, ast.Subscript) and _root_name(n) == p)
+                 or (isinstance(n, ast.Call) and norm(n.func) in ('enumerate', 'range', 'reversed', 'int.from_bytes'))
+                 or (isinstance(n, ast.Call) and isinstance(n.func, ast.Attribute) and n.func.attr in ('rstrip', 'lstrip', 'endswith', 'startswith', 'index', 'find', 'rfind'))]
+        blind = [n for n in ast.walk(fi.node) if isinstance(n, ast.Call) and isinstance(n.func, ast.Attribute) and n.func.attr in POSITION_BLIND and _root_name(n.func.value) == p]
+        if uses and blind and not aware:
+            r.violated('position', fi.site, '_CastToBool looks at its bytes only through `%s`, which forgets where a byte stood: 0x80 counts as negative zero only in the last '
+                       'position (80 00 is true, 00 80 is false)' % norm(blind[0])[:60], sure=True)
+        else:
+            r.undecided('shape', fi.site, '_CastToBool is not a single scan over the byte positions')
+        return
+    lp = loops[0]
+    it_ = norm(lp.iter)
+    if it_ == 'range(len(%s))' % p and isinstance(lp.target, ast.Name):
+        iv, ev = lp.target.id, None
+    elif it_ == 'enumerate(%s)' % p and isinstance(lp.target, ast.Tuple) and len(lp.target.elts) == 2 and all(isinstance(e, ast.Name) for e in lp.target.elts):
+        iv, ev = lp.target.elts[0].id, lp.target.elts[1].id
+    else:
+        r.undecided('shape', common.site_of(fi, lp), 'scan is written as `for %s in %s`' % (norm(lp.target), it_))
+        return
+    tail_ok = len(rest) == 1 and isinstance(rest[0], ast.Return) and fi.node.body.index(rest[0]) > fi.node.body.index(lp) and not lp.orelse
+    tv = repo.fold(rest[0].value, fi.module) if tail_ok and rest[0].value is not None else UNKNOWN
+    r.check(tail_ok and tv is False, 'all-zero', fi.site, 'all bytes zero (or none): false', 'after the scan _CastToBool returns `%s`, not False' % (norm(rest[0]) if rest else 'nothing'))
+
+    class Stop(Exception):
+        pass
+
+    def ev_(e, env):
+        code = compile(ast.Expression(body=e), '<cell>', 'eval')
+        return eval(code, {'__builtins__': {}, 'len': len, 'range': range, 'bool': bool, 'int': int, 'True': True, 'False': False}, env)
+
+    def run_(stmts, env):
+        for st in stmts:
+            if isinstance(st, ast.If):
+                out = run_(st.body if ev_(st.test, env) else st.orelse, env)
+                if out is not None:
+                    return out
+            elif isinstance(st, ast.Return):
+                return ('return', bool(ev_(st.value, env)) if st.value is not None else None)
+            elif isinstance(st, ast.Continue):
+                return ('next', None)
+            elif isinstance(st, ast.Break):
+                return ('break', None)
+            elif isinstance(st, ast.Pass) or (isinstance(st, ast.Expr) and isinstance(st.value, ast.Constant)):
+                continue
+            elif isinstance(st, ast.Assign) and len(st.targets) == 1 and isinstance(st.targets[0], ast.Name):
+                env[st.targets[0].id] = ev_(st.value, env)
+            else:
+                raise Stop(norm(st)[:60])
+        return None
+    for last in (False, True):
+        for v, what in ((0, 'zero byte'), (0x80, '0x80'), (1, 'another non-zero byte'), (0xff, '0xff')):
+            i = 2 if last else 0
+            sbytes = bytes([0] * i + [v] + [0] * (2 - i))
+            env = {p: sbytes}
+            key = '%s:%s' % ('last' if last else 'inner', what)
+            try:
+                run_(pre, env)
+                env[iv] = i
+                if ev:
+                    env[ev] = v
+                out = run_(lp.body, env) or ('next', None)
+            except Stop as e:
+                r.undecided(key, common.site_of(fi, lp), 'scan body contains `%s`' % e)
+                continue
+            except Exception as e:
+                r.undecided(key, common.site_of(fi, lp), 'guards of the scan do not evaluate on the cell (%s)' % type(e).__name__)
+                continue
+            exp = ('next', None) if v == 0 else ('return', not (last and v == 0x80))
+            r.check(out == exp, key, common.site_of(fi, lp), '%s -> %s' % (what, 'keep scanning' if exp[0] == 'next' else exp[1]),
+                    'a %s in %s position makes the scan %s; Bitcoin Core: %s' % (what, 'the last' if last else 'an inner', 'go on' if out[0] == 'next' else ('stop' if out[0] == 'break' else 'answer %s' % out[1]),
+                                                                                  'go on' if exp[0] == 'next' else 'answer %s' % exp[1]))
 
 
 # ------------------------------------------------------------------------------------------------ D2 names
